@@ -17,10 +17,38 @@ with non-decreasing cycle times:
                           ancestors read modified in that cycle; other positions are untouched; `Inv` kept.
 * `child_modified_parent_modified`, `modified_implies_valid`.
 
-Inputs are non-owning views of the bound output (`target_link_ops.cpp`), i.e. they read this same
-state: the "consumer = producer" half of the property is checked on the real code by the probe nodes
-of the correspondence (`P` lines: value / modified / valid / last-modified-time every cycle through a
-passive input), not re-proved.
+The general `invalidate` of `base_view.cpp` (containers; `Model/Tracking.lean invalidateF`: children first, each
+through its own mutation view, then `observers.notify`, `parent.notify_child_modified`, and only then the reset
+of the own time), for EVERY finite tree given by `parent` + a consistent children function (`KTree`):
+
+* `invalidateF_spec`    : from any state with ordered edges bounded by `t`, the recursion as coded ends with the whole
+                          subtree at `MIN_DT`, every proper ancestor at `t`, everything else untouched, edges ordered.
+* `invalidate_spec`     : after `invalidate p` at `t ≥ now` on a valid `p`: `p` and ALL its descendants read not-valid
+                          and not-modified (`lmt = MIN_DT`), every proper ancestor reads modified at `t` and valid,
+                          every other position is untouched, `Inv` is kept (with `now := t`).
+* `invalidate_invalid_id`, `invalidate_twice` : invalidating an invalid position is the identity.
+* `invalidate_leaf_eq`  : on a childless position it is `invalidateLeaf`.
+* `apply_spec`, `run_inv`, `run_spec_refines` : for every history of writes and invalidations with positive,
+                          non-decreasing times, `Inv` holds after every prefix and every step acts exactly as the flat
+                          reading `SpecStep` (which is the reference of the trace monitor in `tools/props/c04.py`).
+
+The consumer side.  A bound input is NOT a pure projection of the producer's records: at the root of its target
+link `ts_input/base_view.cpp` blends the link's own tracking record, which `target_link.cpp` stamps on every
+notification of the target root's observers — including the notification sent by `invalidate()` itself.
+
+* `linkBind_inv`, `link_step_inv`, `link_inv_run` : through every history, `link ≤ now` and `link = lmt root`
+                          whenever the root is valid.
+* `consumer_eq_producer_below_root` : below the root an input view is the producer's record (by definition of the
+                          model — the correspondence is what checks it on the code).
+* `consumer_eq_producer_valid_root` : at the root the blended view agrees whenever the target is valid.
+* `consumer_differs_after_root_invalidate` : after an effective invalidation of the whole target at `t` the producer
+                          reads `lmt = MIN_DT`, not modified, while the input reads `lmt = t`, modified at `t` — the
+                          candidate finding `[C04-consumer]`, modelled as the code behaves, not hidden.
+
+The correspondence for all of this is the `track` stream (`harness/drv_track.cpp`, `Drivers/C04.lean`): real
+`TSOutput` + bound `TSInput` objects of TS / TSB / fixed TSL nestings, every position dumped through every view.
+The probe nodes of the `engine-probe` stream (`P` lines: value / modified / valid / last-modified-time every cycle
+through a passive input) keep checking scalar endpoints inside running graphs.
 -/
 namespace HgVerif.Tracking
 
@@ -230,6 +258,482 @@ theorem invalidate_leaf_spec (T : Tree) (now t p : Nat) (L : Lmt) (h : Inv T now
       have hxq : ¬ Anc T x q := fun hh => hx (Anc.step hpar hh)
       simp [upd, hxp]; exact m4 x hxq
 
+/-! ## observers are notified once: exactly the positions that BECOME modified by the write -/
+
+theorem markUpN_spec (T : Tree) (t : Nat) (fuel p : Nat) (L : Lmt) (hf : p < fuel)
+    (hb : ∀ x, L x ≤ t)
+    (he : ∀ c q, T.parent c = some q → L c ≤ L q ∨ (q = p ∧ L c = t)) :
+    (∀ x, x ∈ markUpN T fuel p t L ↔ Anc T x p ∧ L x < t) ∧
+    (markUpN T fuel p t L).Pairwise (fun a b => b < a) := by
+  induction fuel generalizing p L with
+  | zero => omega
+  | succ fuel ih =>
+    unfold markUpN
+    split
+    · rename_i hle
+      have hpt : L p = t := by have := hb p; omega
+      have hfull : ∀ c q, T.parent c = some q → L c ≤ L q := by
+        intro c q hc
+        rcases he c q hc with h | ⟨hq, hct⟩
+        · exact h
+        · subst hq; omega
+      refine ⟨fun x => ⟨fun h => absurd h List.not_mem_nil, fun ⟨ha, hlt⟩ => ?_⟩, List.Pairwise.nil⟩
+      have := anc_eq_of_top hb hfull ha hpt
+      omega
+    · rename_i hlt
+      have hlt' : L p < t := by omega
+      cases hpar : T.parent p with
+      | none =>
+        simp only
+        refine ⟨fun x => ⟨fun h => ?_, fun ⟨ha, _⟩ => ?_⟩, List.pairwise_singleton _ _⟩
+        · have hx : x = p := by simpa using h
+          subst hx; exact ⟨Anc.refl x, hlt'⟩
+        · rcases anc_cases ha with rfl | ⟨q, hq, _⟩
+          · simp
+          · rw [hpar] at hq; cases hq
+      | some q =>
+        simp only
+        have hqp : q < p := T.wf p q hpar
+        have hb1 : ∀ x, upd L p t x ≤ t := by
+          intro x; by_cases hx : x = p
+          · subst hx; simp [upd]
+          · simp [upd, hx]; exact hb x
+        have he1 : ∀ c q', T.parent c = some q' → upd L p t c ≤ upd L p t q' ∨ (q' = q ∧ upd L p t c = t) := by
+          intro c q' hc
+          by_cases hcp : c = p
+          · subst hcp
+            rw [hpar] at hc; injection hc with hc; subst hc
+            exact Or.inr ⟨rfl, by simp [upd]⟩
+          · by_cases hq'p : q' = p
+            · subst hq'p; left; simp [upd, hcp]; exact hb c
+            · simp only [upd, hcp, hq'p, if_false]
+              rcases he c q' hc with h | ⟨hq, _⟩
+              · exact Or.inl h
+              · exact absurd hq hq'p
+        obtain ⟨m, pw⟩ := ih q (upd L p t) (by omega) hb1 he1
+        refine ⟨fun x => ⟨fun h => ?_, fun ⟨ha, hl⟩ => ?_⟩, ?_⟩
+        · rcases List.mem_cons.mp h with rfl | hr
+          · exact ⟨Anc.refl x, hlt'⟩
+          · obtain ⟨ha, hl⟩ := (m x).mp hr
+            have hxq : x ≤ q := anc_le ha
+            have hxp : x ≠ p := by omega
+            simp only [upd, hxp, if_false] at hl
+            exact ⟨Anc.step hpar ha, hl⟩
+        · rcases anc_cases ha with rfl | ⟨q', hq', haq⟩
+          · exact List.mem_cons_self
+          · rw [hpar] at hq'; injection hq' with hq'; subst hq'
+            have hxq : x ≤ q := anc_le haq
+            have hxp : x ≠ p := by omega
+            apply List.mem_cons_of_mem
+            apply (m x).mpr
+            refine ⟨haq, ?_⟩
+            simp only [upd, hxp, if_false]; exact hl
+        · refine List.pairwise_cons.mpr ⟨fun y hy => ?_, pw⟩
+          have := anc_le ((m y).mp hy).1
+          omega
+
+/-- **observers are notified once**: a write at `t ≥ now` notifies, once each, exactly the positions among the
+    written one and its ancestors that were not yet modified at `t` — so a second write in the same cycle (to the
+    same leaf or to a sibling) does not notify an already modified parent again -/
+theorem write_notifies_once (T : Tree) (now t p : Nat) (L : Lmt) (h : Inv T now L) (ht : now ≤ t) :
+    (writeN T p t L).Nodup ∧ (∀ x, x ∈ writeN T p t L ↔ Anc T x p ∧ ¬ modified L x t) := by
+  obtain ⟨m, pw⟩ := markUpN_spec T t (p + 1) p L (Nat.lt_succ_self p)
+    (fun x => Nat.le_trans (h.2 x) ht) (fun c q hc => Or.inl (h.1 c q hc))
+  refine ⟨?_, fun x => ?_⟩
+  · exact pw.imp (fun hab => by omega)
+  · have hx := Nat.le_trans (h.2 x) ht
+    unfold modified
+    rw [show writeN T p t L = markUpN T (p + 1) p t L from rfl, m x]
+    constructor
+    · exact fun ⟨ha, hl⟩ => ⟨ha, by omega⟩
+    · exact fun ⟨ha, hl⟩ => ⟨ha, by omega⟩
+
+/-! ## the general `invalidate` (containers), for every finite tree -/
+
+def Edges (T : Tree) (L : Lmt) : Prop := ∀ c q, T.parent c = some q → L c ≤ L q
+
+theorem upd_same (L : Lmt) (p t : Nat) : upd L p t p = t := by simp [upd]
+theorem upd_other (L : Lmt) (p t x : Nat) (h : x ≠ p) : upd L p t x = L x := by simp [upd, h]
+
+theorem anc_trans {T : Tree} {a b c : Nat} (h1 : Anc T a b) (h2 : Anc T b c) : Anc T a c := by
+  induction h2 with
+  | refl => exact h1
+  | step hp _ ih => exact Anc.step hp ih
+
+/-- looking down: a position below `p` is `p` or lies below one of `p`'s children -/
+theorem anc_down {T : Tree} {p x : Nat} (h : Anc T p x) : x = p ∨ ∃ c, T.parent c = some p ∧ Anc T c x := by
+  induction h with
+  | refl => exact Or.inl rfl
+  | @step x' q hp _ ih =>
+    rcases ih with rfl | ⟨c, hc, hcq⟩
+    · exact Or.inr ⟨x', hp, Anc.refl x'⟩
+    · exact Or.inr ⟨c, hc, Anc.step hp hcq⟩
+
+/-- below an invalid position everything is invalid (edges ordered) -/
+theorem desc_zero {T : Tree} {L : Lmt} (he : Edges T L) {p x : Nat} (h : Anc T p x) (hp : L p = 0) : L x = 0 := by
+  induction h with
+  | refl => exact hp
+  | @step x' q hpar _ ih => have := he x' q hpar; omega
+
+/-- **`invalidate` as coded refines "subtree := MIN_DT, proper ancestors := t"**, for every fuel above the
+    height, from any state with ordered edges bounded by `t` (the state in the middle of an enclosing cascade
+    is such a state).  On an invalid position it is the identity. -/
+theorem invalidateF_spec (K : KTree) (t : Nat) :
+    ∀ (fuel p : Nat) (L : Lmt), K.height p < fuel → (∀ x, L x ≤ t) → Edges K.toTree L →
+      Edges K.toTree (invalidateF K t fuel p L) ∧
+      (∀ x, invalidateF K t fuel p L x ≤ t) ∧
+      (∀ x, Anc K.toTree p x → invalidateF K t fuel p L x = 0) ∧
+      (∀ x, x ≠ p → Anc K.toTree x p → invalidateF K t fuel p L x = if L p = 0 then L x else t) ∧
+      (∀ x, ¬ Anc K.toTree p x → ¬ Anc K.toTree x p → invalidateF K t fuel p L x = L x) := by
+  intro fuel
+  induction fuel with
+  | zero => intro p L hf; omega
+  | succ fuel ih =>
+    intro p L hf hb he
+    by_cases h0 : L p = 0
+    · have hid : invalidateF K t (fuel + 1) p L = L := by simp [invalidateF, h0]
+      rw [hid]
+      exact ⟨he, hb, fun x hx => desc_zero he hx h0, fun x _ _ => by simp [h0], fun _ _ _ => rfl⟩
+    · -- the cascade over the children, left to right
+      have fold : ∀ (cs : List Nat) (M : Lmt), (∀ c, c ∈ cs → K.parent c = some p) → (∀ x, M x ≤ t) →
+          Edges K.toTree M →
+          Edges K.toTree (cs.foldl (fun acc c => invalidateF K t fuel c acc) M) ∧
+          (∀ x, cs.foldl (fun acc c => invalidateF K t fuel c acc) M x ≤ t) ∧
+          (∀ c, c ∈ cs → ∀ x, Anc K.toTree c x → cs.foldl (fun acc c => invalidateF K t fuel c acc) M x = 0) ∧
+          (∀ x, (∀ c, c ∈ cs → ¬ Anc K.toTree c x) → ¬ Anc K.toTree x p →
+            cs.foldl (fun acc c => invalidateF K t fuel c acc) M x = M x) := by
+        intro cs
+        induction cs with
+        | nil =>
+          intro M _ hbM heM
+          exact ⟨heM, hbM, fun c hc => absurd hc List.not_mem_nil, fun _ _ _ => rfl⟩
+        | cons c cs ihc =>
+          intro M hcs hbM heM
+          have hc : K.parent c = some p := hcs c List.mem_cons_self
+          have hpc : p < c := K.wf c p hc
+          have hh : K.height c < fuel := by have := K.height_lt p c hc; omega
+          obtain ⟨e1, b1, z1, _, f1⟩ := ih c M hh hbM heM
+          obtain ⟨e2, b2, z2, f2⟩ := ihc (invalidateF K t fuel c M)
+            (fun c' h => hcs c' (List.mem_cons_of_mem _ h)) b1 e1
+          simp only [List.foldl_cons]
+          refine ⟨e2, b2, ?_, ?_⟩
+          · intro c' hc' x hx
+            rcases List.mem_cons.mp hc' with rfl | hmem
+            · by_cases hex : ∃ c'', c'' ∈ cs ∧ Anc K.toTree c'' x
+              · obtain ⟨c'', hm, ha⟩ := hex
+                exact z2 c'' hm x ha
+              · have hno : ∀ c'', c'' ∈ cs → ¬ Anc K.toTree c'' x := fun c'' hm ha => hex ⟨c'', hm, ha⟩
+                have hxp : ¬ Anc K.toTree x p := fun hh => by
+                  have := anc_le hh; have := anc_le hx; omega
+                rw [f2 x hno hxp]; exact z1 x hx
+            · exact z2 c' hmem x hx
+          · intro x hnot hxp
+            rw [f2 x (fun c' h => hnot c' (List.mem_cons_of_mem _ h)) hxp]
+            apply f1 x (hnot c List.mem_cons_self)
+            intro hxc
+            rcases anc_cases hxc with rfl | ⟨q, hq, hxq⟩
+            · exact hnot x List.mem_cons_self (Anc.refl x)
+            · rw [hc] at hq; injection hq with hq; subst hq; exact hxp hxq
+      obtain ⟨e1, b1, z1, f1⟩ := fold (K.kids p) L (fun c h => (K.kids_iff p c).mp h) hb he
+      -- `observers.notify`, `parent.notify_child_modified(t)`: everything strictly above `p` carries `t`
+      have key : ∃ L2 : Lmt, invalidateF K t (fuel + 1) p L = upd L2 p 0 ∧ Edges K.toTree L2 ∧ (∀ x, L2 x ≤ t) ∧
+          (∀ x, x ≠ p → Anc K.toTree x p → L2 x = t) ∧
+          (∀ x, ¬ (x ≠ p ∧ Anc K.toTree x p) →
+            L2 x = (K.kids p).foldl (fun acc c => invalidateF K t fuel c acc) L x) := by
+        cases hpar : K.parent p with
+        | none =>
+          refine ⟨(K.kids p).foldl (fun acc c => invalidateF K t fuel c acc) L, ?_, e1, b1, ?_, fun _ _ => rfl⟩
+          · simp [invalidateF, h0, hpar]
+          · intro x hxp hx
+            rcases anc_cases hx with rfl | ⟨q, hq, _⟩
+            · exact absurd rfl hxp
+            · rw [hpar] at hq; cases hq
+        | some q =>
+          obtain ⟨m1, m2, m3, m4⟩ := markUp_spec K.toTree t (q + 1) q
+            ((K.kids p).foldl (fun acc c => invalidateF K t fuel c acc) L) (Nat.lt_succ_self q) b1
+            (fun c q' hc => Or.inl (e1 c q' hc))
+          refine ⟨_, ?_, m1, m2, ?_, ?_⟩
+          · simp [invalidateF, h0, hpar]
+          · intro x hxp hx
+            rcases anc_cases hx with rfl | ⟨q', hq', ha⟩
+            · exact absurd rfl hxp
+            · rw [hpar] at hq'; injection hq' with hq'; subst hq'; exact m3 x ha
+          · intro x hx
+            apply m4 x
+            intro hxq
+            have hxlt : x ≤ q := anc_le hxq
+            have hqp : q < p := K.wf p q hpar
+            exact hx ⟨by omega, Anc.step hpar hxq⟩
+      obtain ⟨L2, hres, E2, B2, A2, F2⟩ := key
+      rw [hres]
+      have below : ∀ c, K.parent c = some p → ∀ x, Anc K.toTree c x → x ≠ p ∧ L2 x = 0 := by
+        intro c hc x hx
+        have hpc : p < c := K.wf c p hc
+        have hcx : c ≤ x := anc_le hx
+        refine ⟨by omega, ?_⟩
+        rw [F2 x (fun h => by have := anc_le h.2; omega)]
+        exact z1 c ((K.kids_iff p c).mpr hc) x hx
+      refine ⟨?_, ?_, ?_, ?_, ?_⟩
+      · intro c q' hc
+        by_cases hcp : c = p
+        · subst hcp; rw [upd_same]; exact Nat.zero_le _
+        · rw [upd_other _ _ _ _ hcp]
+          by_cases hqp : q' = p
+          · subst hqp
+            rw [upd_same, (below c hc c (Anc.refl c)).2]
+            exact Nat.le_refl _
+          · rw [upd_other _ _ _ _ hqp]; exact E2 c q' hc
+      · intro x
+        by_cases hx : x = p
+        · subst hx; rw [upd_same]; exact Nat.zero_le _
+        · rw [upd_other _ _ _ _ hx]; exact B2 x
+      · intro x hx
+        rcases anc_down hx with rfl | ⟨c, hc, hcx⟩
+        · exact upd_same _ _ _
+        · obtain ⟨hne, hz⟩ := below c hc x hcx
+          rw [upd_other _ _ _ _ hne]; exact hz
+      · intro x hxp hx
+        rw [upd_other _ _ _ _ hxp, A2 x hxp hx]; simp [h0]
+      · intro x hpx hxp
+        have hne : x ≠ p := fun e => hpx (by rw [e]; exact Anc.refl p)
+        rw [upd_other _ _ _ _ hne, F2 x (fun h => hxp h.2)]
+        apply f1 x _ hxp
+        intro c hc hcx
+        exact hpx (anc_trans (Anc.step ((K.kids_iff p c).mp hc) (Anc.refl p)) hcx)
+
+/-- **invalidation tells the truth**: after `invalidate p` at `t` on a valid position, `p` and ALL its descendants
+    read not-valid and not-modified (`lmt = MIN_DT`), every proper ancestor reads modified at `t` (and valid), every
+    other position is untouched, and `lmt child ≤ lmt parent ≤ now` is kept -/
+theorem invalidate_spec (K : KTree) (now t p : Nat) (L : Lmt) (h : Inv K.toTree now L) (ht : now ≤ t) (h0 : 0 < t)
+    (hv : valid L p) :
+    Inv K.toTree t (invalidate K p t L) ∧
+    (∀ x, Anc K.toTree p x →
+      invalidate K p t L x = 0 ∧ ¬ valid (invalidate K p t L) x ∧ ¬ modified (invalidate K p t L) x t) ∧
+    (∀ x, x ≠ p → Anc K.toTree x p → modified (invalidate K p t L) x t ∧ valid (invalidate K p t L) x) ∧
+    (∀ x, ¬ Anc K.toTree p x → ¬ Anc K.toTree x p → invalidate K p t L x = L x) := by
+  obtain ⟨s1, s2, s3, s4, s5⟩ := invalidateF_spec K t (K.height p + 1) p L (Nat.lt_succ_self _)
+    (fun x => Nat.le_trans (h.2 x) ht) h.1
+  unfold valid at hv
+  refine ⟨⟨s1, s2⟩, ?_, ?_, s5⟩
+  · intro x hx
+    have hz : invalidate K p t L x = 0 := s3 x hx
+    refine ⟨hz, ?_, ?_⟩
+    · unfold valid; omega
+    · unfold modified; omega
+  · intro x hxp hx
+    have hz : invalidate K p t L x = t := by
+      have := s4 x hxp hx
+      rw [if_neg hv] at this
+      exact this
+    refine ⟨hz, ?_⟩
+    unfold valid; omega
+
+/-- invalidating an already invalid position changes nothing (`return false`) -/
+theorem invalidate_invalid_id (K : KTree) (p t : Nat) (L : Lmt) (h : ¬ valid L p) : invalidate K p t L = L := by
+  unfold valid at h
+  have : L p = 0 := by omega
+  simp [invalidate, invalidateF, this]
+
+/-- a second invalidation (in the same or any later cycle) is the identity -/
+theorem invalidate_twice (K : KTree) (now t t' p : Nat) (L : Lmt) (h : Inv K.toTree now L) (ht : now ≤ t) (h0 : 0 < t) :
+    invalidate K p t' (invalidate K p t L) = invalidate K p t L := by
+  apply invalidate_invalid_id
+  by_cases hv : valid L p
+  · exact ((invalidate_spec K now t p L h ht h0 hv).2.1 p (Anc.refl p)).2.1
+  · rw [invalidate_invalid_id K p t L hv]; exact hv
+
+/-- on a position without children the general `invalidate` is the leaf case proved above -/
+theorem invalidate_leaf_eq (K : KTree) (p t : Nat) (L : Lmt) (hleaf : K.kids p = []) :
+    invalidate K p t L = invalidateLeaf K.toTree p t L := by
+  unfold invalidate invalidateF invalidateLeaf
+  rw [hleaf]
+  rfl
+
+/-! ## every history with non-decreasing times -/
+
+/-- times are positive and do not decrease, starting from `now` -/
+def Mono : Nat → List Op → Prop
+  | _, [] => True
+  | now, o :: os => now ≤ o.time ∧ 0 < o.time ∧ Mono o.time os
+
+def endTime : Nat → List Op → Nat
+  | now, [] => now
+  | _, o :: os => endTime o.time os
+
+/-- the flat reading of one operation (what the trace monitor uses as its reference): a write stamps the written
+    position and its ancestors; an effective invalidation clears the subtree and stamps the proper ancestors; an
+    invalidation of an invalid position does nothing -/
+def SpecStep (T : Tree) (o : Op) (L L' : Lmt) : Prop :=
+  match o with
+  | .w p t => (∀ x, Anc T x p → L' x = t) ∧ (∀ x, ¬ Anc T x p → L' x = L x)
+  | .inv p t =>
+    if L p = 0 then L' = L
+    else (∀ x, Anc T p x → L' x = 0) ∧ (∀ x, x ≠ p → Anc T x p → L' x = t) ∧
+         (∀ x, ¬ Anc T p x → ¬ Anc T x p → L' x = L x)
+
+theorem inv_weaken {T : Tree} {now t : Nat} {L : Lmt} (h : Inv T now L) (ht : now ≤ t) : Inv T t L :=
+  ⟨h.1, fun x => Nat.le_trans (h.2 x) ht⟩
+
+/-- one operation of the code refines the flat reading and keeps the invariant -/
+theorem apply_spec (K : KTree) (now : Nat) (o : Op) (L : Lmt) (h : Inv K.toTree now L) (ht : now ≤ o.time)
+    (h0 : 0 < o.time) : SpecStep K.toTree o L (apply K o L) ∧ Inv K.toTree o.time (apply K o L) := by
+  cases o with
+  | w p t =>
+    obtain ⟨i, a, f⟩ := write_spec K.toTree now t p L h ht
+    exact ⟨⟨a, f⟩, i⟩
+  | inv p t =>
+    simp only [Op.time] at ht h0
+    by_cases hv : L p = 0
+    · have hid := invalidate_invalid_id K p t L (by unfold valid; omega)
+      simp only [SpecStep, apply, hv, if_true, hid]
+      exact ⟨trivial, inv_weaken h ht⟩
+    · obtain ⟨i, z, a, f⟩ := invalidate_spec K now t p L h ht h0 hv
+      simp only [SpecStep, apply, hv, if_false]
+      exact ⟨⟨fun x hx => (z x hx).1, fun x hxp hx => (a x hxp hx).1, f⟩, i⟩
+
+/-- `lmt child ≤ lmt parent ≤ now` holds after every history of writes and invalidations (leaf, child, whole
+    container, repeated, of invalid positions …) with non-decreasing times, on every finite tree -/
+theorem run_inv (K : KTree) : ∀ (ops : List Op) (now : Nat) (L : Lmt), Inv K.toTree now L → Mono now ops →
+    Inv K.toTree (endTime now ops) (run K ops L) := by
+  intro ops
+  induction ops with
+  | nil => intro now L h _; exact h
+  | cons o os ih =>
+    intro now L h hm
+    obtain ⟨h1, h2, h3⟩ := hm
+    exact ih o.time (apply K o L) (apply_spec K now o L h h1 h2).2 h3
+
+theorem mono_snoc : ∀ (pre : List Op) (now : Nat) (o : Op), Mono now (pre ++ [o]) →
+    Mono now pre ∧ endTime now pre ≤ o.time ∧ 0 < o.time := by
+  intro pre
+  induction pre with
+  | nil => intro now o h; exact ⟨trivial, h.1, h.2.1⟩
+  | cons a as ih =>
+    intro now o h
+    obtain ⟨h1, h2, h3⟩ := h
+    obtain ⟨i1, i2, i3⟩ := ih a.time o h3
+    exact ⟨⟨h1, h2, i1⟩, i2, i3⟩
+
+theorem run_append (K : KTree) (a b : List Op) (L : Lmt) : run K (a ++ b) L = run K b (run K a L) := by
+  simp [run, List.foldl_append]
+
+/-- **every step of every history refines the flat reading**: after any prefix `pre` (from the never-written state or
+    any state satisfying the invariant), the next operation `o` acts on the model state exactly as `SpecStep` says -/
+theorem run_spec_refines (K : KTree) (pre : List Op) (o : Op) (now : Nat) (L : Lmt) (h : Inv K.toTree now L)
+    (hm : Mono now (pre ++ [o])) : SpecStep K.toTree o (run K pre L) (run K (pre ++ [o]) L) := by
+  obtain ⟨m1, m2, m3⟩ := mono_snoc pre now o hm
+  have hi := run_inv K pre now L h m1
+  rw [run_append]
+  exact (apply_spec K (endTime now pre) o (run K pre L) hi m2 m3).1
+
+/-! ## the consumer side -/
+
+/-- the link record of a bound input never runs ahead of the clock and equals the root's time whenever the
+    target is valid -/
+def LinkInv (r : Nat) (L : Lmt) (k now : Nat) : Prop := k ≤ now ∧ (L r ≠ 0 → k = L r)
+
+theorem linkRecord_now {k now t : Nat} (hk : k ≤ now) (ht : now ≤ t) : linkRecord k t = t := by
+  unfold linkRecord; split <;> omega
+
+theorem anc_root {T : Tree} {r x : Nat} (hr : T.parent r = none) (h : Anc T x r) : x = r := by
+  rcases anc_cases h with rfl | ⟨q, hq, _⟩
+  · rfl
+  · rw [hr] at hq; cases hq
+
+theorem linkBind_inv (T : Tree) (r now : Nat) (L : Lmt) (h : Inv T now L) : LinkInv r L (linkBind r L) now := by
+  unfold linkBind LinkInv linkRecord
+  have := h.2 r
+  by_cases h0 : L r = 0
+  · simp [h0]
+  · simp only [h0, if_false]
+    split <;> (constructor <;> intros <;> omega)
+
+theorem link_step_inv (K : KTree) (r : Nat) (hr : K.parent r = none) (now : Nat) (o : Op) (L : Lmt) (k : Nat)
+    (h : Inv K.toTree now L) (hk : LinkInv r L k now) (ht : now ≤ o.time) (h0 : 0 < o.time) :
+    LinkInv r (apply K o L) (linkStep r o L (apply K o L) k) o.time := by
+  obtain ⟨hs, _⟩ := apply_spec K now o L h ht h0
+  obtain ⟨k1, k2⟩ := hk
+  cases o with
+  | w p t =>
+    simp only [Op.time] at ht h0
+    simp only [SpecStep] at hs
+    simp only [linkStep, Op.time]
+    by_cases heq : apply K (.w p t) L r = L r
+    · rw [if_pos heq]
+      exact ⟨Nat.le_trans k1 ht, fun hne => by rw [heq] at hne ⊢; exact k2 hne⟩
+    · rw [if_neg heq, linkRecord_now k1 ht]
+      have hanc : Anc K.toTree r p := Classical.byContradiction fun hn => heq (hs.2 r hn)
+      exact ⟨Nat.le_refl _, fun _ => (hs.1 r hanc).symm⟩
+  | inv p t =>
+    simp only [Op.time] at ht h0
+    simp only [linkStep, Op.time]
+    by_cases hv : L p = 0
+    · have hid : apply K (.inv p t) L = L := invalidate_invalid_id K p t L (by unfold valid; omega)
+      rw [if_pos hv, hid]
+      exact ⟨Nat.le_trans k1 ht, k2⟩
+    · simp only [SpecStep, hv, if_false] at hs
+      rw [if_neg hv]
+      by_cases hpr : p = r
+      · subst hpr
+        rw [if_pos rfl, linkRecord_now k1 ht]
+        exact ⟨Nat.le_refl _, fun hne => absurd (hs.1 p (Anc.refl p)) hne⟩
+      · rw [if_neg hpr]
+        by_cases heq : apply K (.inv p t) L r = L r
+        · rw [if_pos heq]
+          exact ⟨Nat.le_trans k1 ht, fun hne => by rw [heq] at hne ⊢; exact k2 hne⟩
+        · rw [if_neg heq, linkRecord_now k1 ht]
+          have hnpr : ¬ Anc K.toTree p r := fun hh => hpr (anc_root hr hh)
+          have hanc : Anc K.toTree r p := Classical.byContradiction fun hn => heq (hs.2.2 r hnpr hn)
+          exact ⟨Nat.le_refl _, fun _ => (hs.2.1 r (fun e => hpr e.symm) hanc).symm⟩
+
+/-- producer state and link record of one bound input through a history -/
+def runL (K : KTree) (r : Nat) : List Op → Lmt × Nat → Lmt × Nat
+  | [], s => s
+  | o :: os, s => runL K r os (apply K o s.1, linkStep r o s.1 (apply K o s.1) s.2)
+
+/-- both invariants hold after every history with non-decreasing times (the input may have been bound at any
+    point: `linkBind_inv` establishes `LinkInv` at the moment of `bind_output`) -/
+theorem link_inv_run (K : KTree) (r : Nat) (hr : K.parent r = none) : ∀ (ops : List Op) (now : Nat) (L : Lmt) (k : Nat),
+    Inv K.toTree now L → LinkInv r L k now → Mono now ops →
+    Inv K.toTree (endTime now ops) (runL K r ops (L, k)).1 ∧
+    LinkInv r (runL K r ops (L, k)).1 (runL K r ops (L, k)).2 (endTime now ops) := by
+  intro ops
+  induction ops with
+  | nil => intro now L k h hk _; exact ⟨h, hk⟩
+  | cons o os ih =>
+    intro now L k h hk hm
+    obtain ⟨h1, h2, h3⟩ := hm
+    exact ih o.time _ _ (apply_spec K now o L h h1 h2).2 (link_step_inv K r hr now o L k h hk h1 h2) h3
+
+/-- below the target root an input view IS the producer's record (`data.last_modified_time()`, `data.modified(t)`) -/
+theorem consumer_eq_producer_below_root (r k : Nat) (L : Lmt) (p t : Nat) (hp : p ≠ r) :
+    inLmt r k L p = L p ∧ (inModified r k L p t ↔ modified L p t) ∧ (inValid L p ↔ valid L p) := by
+  simp [inLmt, inModified, inValid, modified, valid, hp]
+
+/-- at the target root the blended view agrees with the producer whenever the target is valid -/
+theorem consumer_eq_producer_valid_root (r k now : Nat) (L : Lmt) (t : Nat) (hk : LinkInv r L k now) (hv : valid L r) :
+    inLmt r k L r = L r ∧ (inModified r k L r t ↔ modified L r t) := by
+  have hkr : k = L r := hk.2 hv
+  simp [inLmt, inModified, modified, hkr]
+
+/-- **where consumer and producer differ** (candidate finding C04-consumer): after an effective invalidation of the
+    whole target at `t`, the producer's root reads not valid, not modified, `lmt = MIN_DT`, while every bound input
+    reads the root as modified at `t` with `lmt = t` — and keeps that `lmt` while the target stays invalid -/
+theorem consumer_differs_after_root_invalidate (K : KTree) (r : Nat) (now t : Nat) (L : Lmt) (k : Nat)
+    (h : Inv K.toTree now L) (hk : LinkInv r L k now) (ht : now ≤ t) (h0 : 0 < t) (hv : valid L r) :
+    (invalidate K r t L) r = 0 ∧ ¬ modified (invalidate K r t L) r t ∧ ¬ inValid (invalidate K r t L) r ∧
+    inLmt r (linkStep r (.inv r t) L (invalidate K r t L) k) (invalidate K r t L) r = t ∧
+    inModified r (linkStep r (.inv r t) L (invalidate K r t L) k) (invalidate K r t L) r t := by
+  obtain ⟨hz, _, hm⟩ := (invalidate_spec K now t r L h ht h0 hv).2.1 r (Anc.refl r)
+  unfold valid at hv
+  have hl : linkStep r (.inv r t) L (invalidate K r t L) k = t := by
+    simp only [linkStep, hv, if_false, if_true]
+    exact linkRecord_now hk.1 ht
+  refine ⟨hz, hm, ?_, ?_, ?_⟩
+  · simp [inValid, hz]
+  · simp [inLmt, hl, hz]
+  · simp [inModified, hl]
+
 /-! non-vacuity: a bundle (0) with two fields (1, 2), field 2 itself a bundle with child 3 -/
 def exTree : Tree :=
   { parent := fun p => if p = 1 ∨ p = 2 then some 0 else if p = 3 then some 2 else none,
@@ -238,5 +742,29 @@ def exTree : Tree :=
 example : Inv exTree 0 (fun _ => 0) := ⟨fun _ _ _ => Nat.le_refl _, fun _ => Nat.le_refl _⟩
 example : write exTree 3 5 (fun _ => 0) 0 = 5 ∧ write exTree 3 5 (fun _ => 0) 1 = 0 ∧ write exTree 3 5 (fun _ => 0) 2 = 5 := by
   decide
+
+
+/-! non-vacuity for the general invalidate and the consumer side:
+    `TSB{a, b:TSB{c, d}}` = positions 0 (root), 1 (a), 2 (b), 3 (c), 4 (d) -/
+def exK : KTree := KTree.ofParents #[none, some 0, some 0, some 2, some 2]
+
+/-- `w a@1, w c@2, w d@2` -/
+def exL : Lmt := run exK [.w 1 1, .w 3 2, .w 4 2] (fun _ => 0)
+
+example : Mono 0 [.w 1 1, .w 3 2, .w 4 2, .inv 2 3, .inv 2 4, .w 4 4, .inv 0 5] := by simp [Mono, Op.time]
+example : exK.kids 0 = [1, 2] ∧ exK.kids 2 = [3, 4] ∧ exK.kids 3 = [] := by decide
+example : Inv exK.toTree 2 exL :=
+  run_inv exK [.w 1 1, .w 3 2, .w 4 2] 0 (fun _ => 0) ⟨fun _ _ _ => Nat.le_refl _, fun _ => Nat.le_refl _⟩ (by simp [Mono, Op.time])
+example : valid exL 2 ∧ valid exL 3 ∧ valid exL 0 := by decide
+/-- invalidating the inner bundle `b` (which has two valid children) at 3: b, c, d read `MIN_DT`; the root reads 3;
+    the sibling `a` keeps 1 -/
+example : (List.range 5).map (invalidate exK 2 3 exL) = [3, 1, 0, 0, 0] := by decide
+/-- invalidating the whole (valid, with valid children) root at 3 -/
+example : (List.range 5).map (invalidate exK 0 3 exL) = [0, 0, 0, 0, 0] := by decide
+/-- the link record of an input bound from the start, after the root invalidation: the input root reads `lmt = 3`,
+    the producer `MIN_DT` -/
+example : (runL exK 0 [.w 1 1, .w 3 2, .w 4 2, .inv 0 3] (fun _ => 0, linkBind 0 (fun _ => 0))).2 = 3 ∧
+    (runL exK 0 [.w 1 1, .w 3 2, .w 4 2, .inv 0 3] (fun _ => 0, linkBind 0 (fun _ => 0))).1 0 = 0 := by decide
+example : LinkInv 0 exL 2 2 := by unfold LinkInv; decide
 
 end HgVerif.Tracking
